@@ -18,6 +18,10 @@ CONSTANTS
   Cap = 3
   Wins = {2, 3}
   OwnStorage = FALSE
+  Forms = {"ln"}
+  Shapes = {"plain"}
+  WholeMsg = TRUE
+  SignedCid = TRUE
   Sink <- KeepAll
 INVARIANTS WholeLines
 CHECK_DEADLOCK FALSE
